@@ -62,20 +62,20 @@ type vWLine struct {
 	Ev   string `json:"ev"`
 	Case int    `json:"case"`
 	vWCase
-	Frames     int    `json:"frames"`     // buffers the sender handed to its transport
-	WireLen    int    `json:"wireLen"`    // length of the (first) frame
-	Sealed     bool   `json:"sealed"`     // every sender buffer opens under the sender's primary key with its label as AAD
-	Canary     bool   `json:"canary"`     // the payload canary is visible in a sender buffer
-	SentDigest string `json:"sentDigest"` // digest of what the sender was asked to send
-	Acted      bool   `json:"acted"`      // the receiver did anything (membership step, delegate call, ack/state reply)
-	Delivered  string `json:"delivered"`  // digest of what reached the receiver's handler / delegate
-	Reply      string `json:"reply"`      // none | ack | state | err | other
-	NodeOps    int    `json:"nodeOps"`
-	Mutated    bool   `json:"mutated"` // the attack changed at least one byte
-	Note       string `json:"note"`
-	Panic      string `json:"panic"`
-	ReplyFrames int   `json:"replyFrames"` // buffers the receiver handed to its transport / wrote to the stream
-	ReplySealed bool  `json:"replySealed"` // ... all of them sealed under the receiver's primary key with its label
+	Frames      int    `json:"frames"`     // buffers the sender handed to its transport
+	WireLen     int    `json:"wireLen"`    // length of the (first) frame
+	Sealed      bool   `json:"sealed"`     // every sender buffer opens under the sender's primary key with its label as AAD
+	Canary      bool   `json:"canary"`     // the payload canary is visible in a sender buffer
+	SentDigest  string `json:"sentDigest"` // digest of what the sender was asked to send
+	Acted       bool   `json:"acted"`      // the receiver did anything (membership step, delegate call, ack/state reply)
+	Delivered   string `json:"delivered"`  // digest of what reached the receiver's handler / delegate
+	Reply       string `json:"reply"`      // none | ack | state | err | other
+	NodeOps     int    `json:"nodeOps"`
+	Mutated     bool   `json:"mutated"` // the attack changed at least one byte
+	Note        string `json:"note"`
+	Panic       string `json:"panic"`
+	ReplyFrames int    `json:"replyFrames"` // buffers the receiver handed to its transport / wrote to the stream
+	ReplySealed bool   `json:"replySealed"` // ... all of them sealed under the receiver's primary key with its label
 	// byte campaign (attack "campaign"): every truncation and byte mutations of the genuine frame
 	Injected     int `json:"injected"`
 	ActedMut     int `json:"actedMut"`     // mutated / truncated inputs on which the receiver acted (version byte excluded)
